@@ -22,7 +22,7 @@ type c10Item struct {
 }
 
 func checkC10(c *core.Ctx) []core.Floor {
-	c.Rule = "statement trees over the whole supported grammar (SELECT with select list / aliases with and without AS / COUNT / AVG / qualified names / 0-2 joins of each type with and without INNER / WHERE / GROUP BY 1-n comma separated / ORDER BY 1-3 keys with and without ASC|DESC / LIMIT and OFFSET in either order; INSERT with and without column list, 1-5 rows; UPDATE with 1-4 SET items; DELETE; CREATE TABLE with all four types; CREATE DATABASE; USE; SHOW DATABASE(S)); every AND/OR expression shape with <= 5 predicates is enumerated; each tree is rendered 4 ways (keyword case, whitespace incl. tabs/newlines/minimal, optional keywords, bare/quoted identifiers, integer literals with leading zeros); 1 in 40 is an INSERT of 20-60 rows of multi-byte string literals (text of several kilobytes) and parsed through the real tokenizer+parser; the parsed statement, converted to a neutral form with AND/OR chains flattened, must equal the generated tree. Distinct = rendered text; non-trivial = the statement has at least one comma separated list with >= 2 elements or a boolean expression with >= 2 predicates."
+	c.Rule = "statement trees over the whole supported grammar (SELECT with select list / aliases with and without AS / COUNT / AVG / qualified names / 0-2 joins of each type with and without INNER / WHERE / GROUP BY 1-n comma separated / ORDER BY 1-3 keys with and without ASC|DESC / LIMIT and OFFSET in either order; INSERT with and without column list, 1-5 rows; UPDATE with 1-4 SET items; DELETE; CREATE TABLE with all four types; CREATE DATABASE; USE; SHOW DATABASE(S)); every AND/OR expression shape with <= 5 predicates is enumerated; each tree is rendered 4 ways (keyword case, whitespace incl. tabs/newlines/minimal, optional keywords, bare/quoted identifiers, integer literals with leading zeros); groups of statements that differ only in the blanks inside one quoted literal or identifier are parsed back to back in one process; 1 in 40 is an INSERT of 20-60 rows of multi-byte string literals (text of several kilobytes) and parsed through the real tokenizer+parser; the parsed statement, converted to a neutral form with AND/OR chains flattened, must equal the generated tree. Distinct = rendered text; non-trivial = the statement has at least one comma separated list with >= 2 elements or a boolean expression with >= 2 predicates."
 	c.Assume = []string{"positions (line/column) and keyword spelling are not compared", "string literals contain no quote, backslash or newline"}
 	drv := mustDriver(c, false)
 	n := 8000
@@ -63,6 +63,28 @@ func checkC10(c *core.Ctx) []core.Floor {
 		c.Count("statements_longer_than_1024_bytes", 1)
 	}
 	var items []c10Item
+	// statements that differ from one another only in the blanks inside one
+	// quoted literal or quoted identifier, written identically otherwise and
+	// parsed one after the other in the same process
+	for i := 0; i < n/40; i++ {
+		ws := []string{"a b", "a  b", "a\tb", " a b", "a b ", "a   b", "ab"}
+		k := i % 4
+		for _, w := range ws {
+			var t *proto.NStmt
+			switch k {
+			case 0:
+				t = &proto.NStmt{Kind: "insert", Name: "t", Rows: [][]proto.Val{{proto.Int(int64(i)), proto.Str(w)}}}
+			case 1:
+				t = &proto.NStmt{Kind: "delete", Name: "t", Where: &proto.Cond{Op: "=", LHS: model.ColOp("s"), RHS: model.LitOp(proto.Str(w))}}
+			case 2:
+				t = &proto.NStmt{Kind: "select", Star: true, From: []proto.NTable{{Name: w}}, Where: &proto.Cond{Op: "=", LHS: model.ColOp("k"), RHS: model.LitOp(proto.Int(int64(i)))}}
+			default:
+				t = &proto.NStmt{Kind: "update", Name: "t", Sets: []proto.NSet{{Col: "s", Src: *model.LitOp(proto.Str(w))}}, Where: &proto.Cond{Op: "=", LHS: model.ColOp("k"), RHS: model.LitOp(proto.Int(int64(i)))}}
+			}
+			items = append(items, c10Item{n: t, text: model.RenderN(t, model.Plain), tag: "whitespace_twins"})
+			c.Count("whitespace_twin_statements", 1)
+		}
+	}
 	for i, t := range trees {
 		for v := 0; v < 4; v++ {
 			st := model.Style{KwCase: (v + i) % 3, WS: v % 3, OptKw: v%2 == 0, QuoteIDs: v == 3, LimitOffsetSwap: (i+v)%2 == 0, ZeroPad: v == 1, R: r}
@@ -96,7 +118,7 @@ func checkC10(c *core.Ctx) []core.Floor {
 		}
 	})
 	c.Sample(4, map[string]interface{}{"tree": trees[len(trees)-1], "renderings": []string{items[len(items)-4].text, items[len(items)-3].text, items[len(items)-2].text, items[len(items)-1].text}})
-	return []core.Floor{{Key: "parsed_equal", Min: 5000}, {Key: "boolean_shapes_enumerated", Min: 93}, {Key: "list_select_ge3", Min: 20}, {Key: "list_values_rows_ge3", Min: 20}, {Key: "list_set_ge3", Min: 20}, {Key: "list_group_ge2", Min: 20}, {Key: "list_order_ge3", Min: 20}, {Key: "list_defs_ge3", Min: 20}, {Key: "statements_longer_than_1024_bytes", Min: 100}}
+	return []core.Floor{{Key: "parsed_equal", Min: 5000}, {Key: "boolean_shapes_enumerated", Min: 93}, {Key: "list_select_ge3", Min: 20}, {Key: "list_values_rows_ge3", Min: 20}, {Key: "list_set_ge3", Min: 20}, {Key: "list_group_ge2", Min: 20}, {Key: "list_order_ge3", Min: 20}, {Key: "list_defs_ge3", Min: 20}, {Key: "statements_longer_than_1024_bytes", Min: 100}, {Key: "whitespace_twin_statements", Min: 100}}
 }
 
 func condPreds(cn *proto.Cond) int {
